@@ -73,3 +73,24 @@ claim("C18",
       "Decides that both directions of each relationship encoding refer to the same keys, fields and separators and that the subject kind is decided by presence; does not decide round-trip equality over all strings or escaping. Right level: writer/reader table agreement is a static comparison of two functions.")
 
 na("C10", "semantic equivalence between the parser's output and TypeScript's grammar over all programs: precedence/associativity is not a code shape every correct parser shares; no sound structural necessary condition found (and the property is known to be violated: a||b&&c parses as (a||b)&&c), so a static green light would be misleading")
+
+# ---- rules added after the first version of each check (DESIGN.md §9.5 says which seeded change motivated which)
+extend("C01", "who-may-install check for visited sets (only below a single check); write-after-hand-over check on objects given to running sub-checks; CFG search for loop iterations that add no sub-check outside the enumerated skip edges; the C07 paging-agreement rules run on the listings the engine evaluates over; read-only check of the shared namespace configuration (stores and in-place reorders through aliases)",
+       "Also decides sub-check fan-out completeness, listing completeness and that evaluation leaves the configuration untouched.")
+extend("C02", "who-may-read check on the width limit (only where the cut-off is marked); must-pass check that the exhausted side of every comparison of the remaining depth answers with the cut-off result")
+extend("C03", "the same error-discipline analysis over the storage-layer functions live below a check (sources = calls from which a database-library call is reachable; named-result cells followed along kill-free paths only)")
+extend("C04", "tiling check on sub-slices of the input tuples; pagination-consumer discipline for every caller of the paginated listing; control-dependence of each collected delta tuple on that delta's action; extra-condition detection on query predicates",
+       "Also decides that multi-tuple writes cover their input and that nothing acts on the first page of a listing only.")
+extend("C05", "loop position of the Transaction call that encloses the writes; tiling check on chunked input")
+extend("C06", "statement-kind rule for the UUID mapping table (shared by all networks: only id-keyed statements); field-type and write-site audit of the request-serving singletons (no caching/coalescing state)")
+extend("C07", "loop-exit classification of page loops (token, error, empty page, group done, or page-invariant); stride-equals-chunk check of the id look-up that maps a page back to strings")
+extend("C08", "visited-set install scope (batch entries independent); the C18 encoder/decoder agreement rules run for the check transports")
+extend("C09", "the C04 predicate/guard rules run on the listing query behind expand")
+extend("C11", "immediate-dominator check that nothing but 'no syntax error' decides whether the deferred checks run; read/write audit of the deferred checks against the parser fields that parsing overwrites")
+extend("C12", "lower-bound check (constant, len, max, dominating comparison) on every count handed to strings.Repeat / make in package schema")
+extend("C13", "URL-query decoders as taint seeds; structure of the gRPC interceptor chains (recovery first, append-only); data-dependence of allocation sizes on request integers")
+extend("C14", "audit of singleton state; lock-pairing must-pass analysis (every lock released on every path to a return); read-only check of the shared namespace configuration")
+extend("C15", "lock-pairing must-pass analysis on the check path; unbuffered-send-versus-leaving-receiver classification")
+extend("C16", "every-store check on the forward mapping (NewV5(network, name) and nothing else); stride-equals-chunk and bound-invariance checks on the chunked reverse look-up")
+extend("C18", "guard classification of every URL key write (presence tests only)")
+extend("C19", "must-pass check that the failed-parse branch restores or removes the staged entry on every path; CFG search for event-loop iterations that reach no handler")
